@@ -234,6 +234,7 @@ class Edit:
 # tools/gen_loop_counts.py whenever contracts change).  A function whose loop structure differs needs NEW loop invariants before
 # anything about it can be proved: its failed obligations are 'undecided', not violations.
 LOOP_BASELINE = {}
+ANCHOR_CTX_NOW = {}   # filled while weaving: neighbouring lines of every uniquely matched hint anchor (for tools/gen_loop_counts.py)
 
 
 def load_loop_baseline(verif):
@@ -523,14 +524,32 @@ def weave_file(file, src, fnspecs, blockitems, canary=False, degrade=(), extern=
                     skipped.append((key, 'line %r #%d not found (%s:%d)' % (ins['anchor'], ins['k'], spec.vfile, ins['vline'])))
                     continue
                 hits = [hits[ins['k'] - 1]]
-            if len(hits) != 1:
+            if len(hits) == 0:
                 skipped.append((key, 'line %r matches %d (%s:%d)' % (ins['anchor'], len(hits), spec.vfile, ins['vline'])))
+                # a step of this function's proof is gone with the line it was attached to: what fails afterwards may be the
+                # proof's fault, not the code's
+                restructured.setdefault(key, 'a proof hint of its contract is anchored on a line that is no longer in the body (%r)' % ins['anchor'][:40])
                 continue
-            a, z = hits[0]
-            if ins['where'] == 'before':
-                add(a, 0, text + '\n', ('contract', spec.vfile, ins['vline'], None, ins.get('props')))
-            else:
-                add(z, 0, '\n' + text, ('contract', spec.vfile, ins['vline'], None, ins.get('props')))
+            def _ctx(a, z):
+                pl = [src[x:y].strip() for x, y in body_lines if y <= a and src[x:y].strip()]
+                nl = [src[x:y].strip() for x, y in body_lines if x >= z and src[x:y].strip()]
+                return [pl[-1] if pl else '', nl[0] if nl else '']
+            ANCHOR_CTX_NOW['%s|%d' % (key, ins['vline'])] = _ctx(*hits[0]) if len(hits) == 1 else None
+            if len(hits) > 1:
+                # the anchored statement now occurs several times (e.g. duplicated into a new branch): prefer the occurrence whose
+                # neighbouring lines are the ones recorded when the contract was written; no clear winner => every occurrence
+                want = LOOP_BASELINE.get('__anchors__', {}).get('%s|%d' % (key, ins['vline']))
+                if want:
+                    sc = [sum(1 for u, v in zip(_ctx(a, z), want) if u == v) for a, z in hits]
+                    best = max(sc)
+                    if best > 0 and sc.count(best) == 1:
+                        hits = [hits[sc.index(best)]]
+                skipped.append((key, 'line %r matches several lines: hint woven at %d of them (%s:%d)' % (ins['anchor'], len(hits), spec.vfile, ins['vline'])))
+            for a, z in hits:
+                if ins['where'] == 'before':
+                    add(a, 0, text + '\n', ('contract', spec.vfile, ins['vline'], None, ins.get('props')))
+                else:
+                    add(z, 0, '\n' + text, ('contract', spec.vfile, ins['vline'], None, ins.get('props')))
 
     # uncontracted functions whose text Verus rejects: same fallback
     if extern:
